@@ -576,7 +576,11 @@ def _robust_gp_fit_(
                 Y = Y[~idx_drop_out]
                 if s2 is not None and not np.isscalar(s2):
                     s2 = s2[~idx_drop_out]
-                # Remove also user specified noise
+                # Remove the same points from the data held by the working GP
+                # (inputs, values and user specified noise): the slice sampler
+                # evaluates the GP objective on them
+                tmp_gp.X = tmp_gp.X[~idx_drop_out]
+                tmp_gp.y = tmp_gp.y[~idx_drop_out]
                 if tmp_gp.s2 is not None and tmp_gp.s2.size > 0:
                     tmp_gp.s2 = tmp_gp.s2[~idx_drop_out]
 
